@@ -20,3 +20,13 @@ package deployment
 //@ func (*realController).Initialize
 //@ props C06
 //@ requires rc != nil && release != nil
+
+// C01: every raise of the surge rewrites the whole rolling-update strategy (type RollingUpdate, maxSurge, and
+// maxUnavailable pinned to 0 again) in the same patch; patching maxSurge alone would let a maxUnavailable written by
+// someone else add to the number of new-revision pods the native controller may run.
+//@ track github.com/openkruise/rollouts/pkg/util/patch.(*DeploymentPatch).UpdateStrategy as setStrategy
+//@ func (*realController).UpgradeBatch
+//@ props C01
+//@ requires rc != nil && ctx != nil && rc.object != nil && rc.client != nil
+//@ ensures surge_raised_with_full_strategy: #Patch >= 1 ==> #setStrategy == 1
+//@ ensures at_most_one_write: #Patch <= 1
